@@ -423,15 +423,80 @@ fn gradient_case(rng: &mut Rng, idx: u64, out: &mut Out) {
     }
 }
 
+/// Builder-call order: a skip connection and a loop connection declared in either order must be
+/// accepted alike and give the same network. The skip target may lie anywhere, also inside the
+/// looped range (what such a network computes is not judged here, only that the two orders
+/// agree bit for bit and that a valid `connect` is not refused because a loop was declared first).
+fn order_case(rng: &mut Rng, idx: u64, out: &mut Out) {
+    let kind = (idx % 2) as usize;
+    let acts = [Act::Tanh, Act::Sigmoid, Act::Linear, Act::Leaky];
+    let depth = rng.range(3, 6);
+    let cfg = chain(rng, kind, depth, &acts, false, true);
+    let shapes = match cfg.shapes() {
+        Ok(s) => s,
+        Err(_) => {
+            out.nontrivial = false;
+            return;
+        }
+    };
+    let n = cfg.layers.len();
+    // a loop over 1..3 layers and a skip connection with equal element counts
+    let loops: Vec<(usize, usize)> = (0..n).flat_map(|lo| (lo..n.min(lo + 3)).map(move |hi| (lo, hi))).filter(|(lo, hi)| shapes[*lo].0 == shapes[*hi].1).collect();
+    let skips: Vec<(usize, usize)> = (0..n).flat_map(|a| (a..n).map(move |b| (a, b))).filter(|(a, b)| shapes[*a].0.count() == shapes[*b].0.count()).collect();
+    if loops.is_empty() || skips.is_empty() {
+        out.nontrivial = false;
+        return;
+    }
+    let (lo, hi) = *rng.pick(&loops);
+    let inside: Vec<(usize, usize)> = skips.iter().cloned().filter(|(_, b)| *b > lo && *b <= hi).collect();
+    let (a, b) = if !inside.is_empty() && rng.chance(0.6) { *rng.pick(&inside) } else { *rng.pick(&skips) };
+    let (iters, inskips) = (rng.range(1, 2), rng.bool());
+    let skipacc = ACCS[((idx / 2) % 5) as usize];
+    let loopacc = ACCS[((idx / 10) % 5) as usize];
+    let params = gen_params(&cfg, rng, -1.0, 1.0).unwrap();
+    let x = varied_input(rng, cfg.input);
+    out.key = format!("order {} | skip ({}, {}) {} | loop ({}, {}, {}, {}) {}", cfg.describe(), a, b, skipacc.name(), hi, lo, iters, inskips, loopacc.name());
+    out.cover("order_cases_skip_target_position", if b > lo && b <= hi { "inside the looped range" } else if b == lo { "first looped layer" } else if b == hi + 1 { "behind the loop" } else { "elsewhere" }.to_string());
+    let make = |loop_first: bool| -> Result<Vec<f32>, String> {
+        let mut net = build(&cfg, Some(&params))?;
+        guard(|| {
+            net.set_accumulation(lib_acc(skipacc), lib_acc(loopacc));
+            if loop_first {
+                net.loopback(hi, lo, iters, std::sync::Arc::new(|x| 1.0 / x), inskips);
+                net.connect(a, b);
+            } else {
+                net.connect(a, b);
+                net.loopback(hi, lo, iters, std::sync::Arc::new(|x| 1.0 / x), inskips);
+            }
+        })
+        .map_err(|m| format!("declaring the connections panicked: {}", m))?;
+        guard(|| flat(&net.predict(&tensor_of(cfg.input, &x)))).map_err(|m| format!("predict panicked: {}", m))
+    };
+    let (first, second) = (make(false), make(true));
+    out.count("builder_orders_compared", 1);
+    match (first, second) {
+        (Ok(p), Ok(q)) => {
+            if !bits_eq(&p, &q) {
+                out.viol("skip:order:results-differ", format!("{}: connect-then-loopback and loopback-then-connect give different predictions", out.key), J::Null);
+            }
+        }
+        (Err(_), Err(_)) => {
+            out.count("builder_orders_refused_alike", 1);
+        }
+        (Ok(_), Err(m)) => out.viol("skip:order:refused-after-loopback", format!("{}: accepted when connect() comes first, but with the loop declared first: {}", out.key, short(&m, 200)), J::Null),
+        (Err(m), Ok(_)) => out.viol("skip:order:refused-before-loopback", format!("{}: accepted when loopback() comes first, but with the connection declared first: {}", out.key, short(&m, 200)), J::Null),
+    }
+}
+
 impl Monitor for C16 {
     fn id(&self) -> &'static str {
         "C16"
     }
     fn gens(&self, tier: Tier) -> Vec<(&'static str, u64)> {
-        vec![("values", tier.pick(90_000, 1_800_000)), ("bookkeeping", tier.pick(45_000, 900_000)), ("gradients", tier.pick(22_500, 450_000))]
+        vec![("values", tier.pick(90_000, 1_800_000)), ("bookkeeping", tier.pick(45_000, 900_000)), ("gradients", tier.pick(22_500, 450_000)), ("orders", tier.pick(20_000, 400_000))]
     }
     fn rule(&self) -> &'static str {
-        "networks of depth 2..7 in which every layer input has the same element count (flat dense chains, spatial chains of 'same' convolutions / deconvolutions / 1x1 pools / deconvolution+pool pairs, mixed flat<->spatial chains on r*r elements, spatial chains whose shapes differ at equal element count via stride-2 convolutions / deconvolutions; every seventh network has some layers wrapped into feedback blocks so that blocks occur as sources and targets). values: 1..2 connections drawn from ALL index pairs a <= b with equal counts (sources and targets disjoint), accumulation = case index mod 5; predict vs reference network where layer b processes combine(ordinary input, input fed to a) (reshaped row-major), within the running f32 bound; every fourth case adds a loop connection (1..2 iterations, any loop accumulation, with and without input skips) over a range no connection starts in, preferably ending right in front of a skip target, so that the target combines the looped output with its source. bookkeeping: scripts of 2..4 connect() calls biased towards same-target, same-source and chained pairs; after every call the prediction must equal the reference containing exactly the accepted connections (either reading of 'input fed to a' for chains), a call with a new source and a new target must be accepted, a discarded earlier connection is identified by re-evaluating the reference without it. gradients: additive accumulation (every fifth case adds its last connection only after the network object has run a forward and a backward pass), hooked backward vs dual-number derivative of the MSE of the reference WITH the skips. The loop accumulation (which concerns nothing in these networks) is set to each of the five values in turn. Distinct = distinct (network, connections | script) descriptors."
+        "networks of depth 2..7 in which every layer input has the same element count (flat dense chains, spatial chains of 'same' convolutions / deconvolutions / 1x1 pools / deconvolution+pool pairs, mixed flat<->spatial chains on r*r elements, spatial chains whose shapes differ at equal element count via stride-2 convolutions / deconvolutions; every seventh network has some layers wrapped into feedback blocks so that blocks occur as sources and targets). values: 1..2 connections drawn from ALL index pairs a <= b with equal counts (sources and targets disjoint), accumulation = case index mod 5; predict vs reference network where layer b processes combine(ordinary input, input fed to a) (reshaped row-major), within the running f32 bound; every fourth case adds a loop connection (1..2 iterations, any loop accumulation, with and without input skips) over a range no connection starts in, preferably ending right in front of a skip target, so that the target combines the looped output with its source. bookkeeping: scripts of 2..4 connect() calls biased towards same-target, same-source and chained pairs; after every call the prediction must equal the reference containing exactly the accepted connections (either reading of 'input fed to a' for chains), a call with a new source and a new target must be accepted, a discarded earlier connection is identified by re-evaluating the reference without it. gradients: additive accumulation (every fifth case adds its last connection only after the network object has run a forward and a backward pass), hooked backward vs dual-number derivative of the MSE of the reference WITH the skips. orders: a chain with one skip connection (target anywhere, also inside a looped range) and one loop connection, declared as connect-then-loopback and as loopback-then-connect: both orders must be accepted alike and predict bit-identically. The loop accumulation (which concerns nothing in the networks without loops) is set to each of the five values in turn. Distinct = distinct (network, connections | script) descriptors."
     }
     fn assumptions(&self) -> Vec<&'static str> {
         vec!["chained connections (a target that is also a source): both the raw and the accumulated reading of 'the input that was fed to layer a' are accepted", "multiplicative/subtractive/mean/overwrite accumulations are only checked on values (the property claims gradients for additive accumulation only)"]
@@ -443,6 +508,7 @@ impl Monitor for C16 {
             "values" => values_case(&mut rng, idx, &mut out),
             "bookkeeping" => bookkeeping_case(&mut rng, idx, &mut out),
             "gradients" => gradient_case(&mut rng, idx, &mut out),
+            "orders" => order_case(&mut rng, idx, &mut out),
             _ => panic!("unknown generator {}", gen),
         }
         out
